@@ -19,11 +19,12 @@ import (
 
 func init() {
 	fw.Register(&fw.Prop{
-		ID:       "C08",
-		Builds:   []string{"default", "386"}, // the 386 build runs 1/6 of the random classes on a 32-bit target
-		Scale386: 6,
-		Parallel: 4, // cases are judged on 4 goroutines per shard: the library functions are stateless, shared state inside them shows up as wrong verdicts
-		Rule: "commute: (curve in {secp256k1, P-256}, seed, path, non-hardened index from {0, 1, 2^31-1, random}, plus the published P-256 vector whose child needs a retry): four children (idx, a sibling, idx again, another sibling) are derived from the SAME extended private key object and from the SAME Public() object; for each, DeriveChild then Public() vs. DeriveChild on Public(): key bytes, chain code, fingerprint. shift also includes secp256k1 shifts lambda*k and lambda^2*k (the shifted point has the same y as the key and another x). shift: (curve, scalar k, 32-byte shift) with shift in {0, 1, k, n-k, n-k+-1, n-1, n, n+1, 2^256-1, random < n, random >= n} and k in {1, 2, n-1, (n+-1)/2, random}: PrivateKey.Shift and PublicKey.Shift must both report ErrInvalidKey or both succeed with pub' = point(priv') (the point computed by the affine model for the returned private scalar); no panic. Whether the common verdict/value is the one SLIP-0010 prescribes is counted here and judged by C02. " +
+		ID:                  "C08",
+		DeadlockIsViolation: true,                       // the calls of this property are synchronous functions of their inputs: a call blocked for good inside the library is a violation
+		Builds:              []string{"default", "386"}, // the 386 build runs 1/6 of the random classes on a 32-bit target
+		Scale386:            6,
+		Parallel:            4, // cases are judged on 4 goroutines per shard: the library functions are stateless, shared state inside them shows up as wrong verdicts
+		Rule: "commute: (curve in {secp256k1, P-256}, seed, path, non-hardened index from {0, 1, 2^31-1, random}, plus the published P-256 vector whose child needs a retry): four children (idx, a sibling, idx again, another sibling) are derived from the SAME extended private key object and from the SAME Public() object; for each, DeriveChild then Public() vs. DeriveChild on Public(): key bytes, chain code, fingerprint. shift also includes secp256k1 shifts lambda*k and lambda^2*k (the shifted point has the same y as the key and another x). shift: (curve, scalar k, 32-byte shift) with shift in {0, 1, k, n-k, n-k+-1, n-1, n, n+1, 2^256-1, random < n, random >= n} and k in {1, 2, n-1, (n+-1)/2, random, and scalars outside [1, n-1] — 0, n, n+1, n+2, random in (n, 2^256), 2^256-1 — for which the key is built directly from the exported fields of elliptic.PrivateKey}: PrivateKey.Shift and PublicKey.Shift must both report ErrInvalidKey or both succeed with pub' = point(priv') (the point computed by the affine model for the returned private scalar); no panic. Whether the common verdict/value is the one SLIP-0010 prescribes is counted here and judged by C02. " +
 			"Non-trivial: distinct shift cases in a named corner class and all commute cases.",
 		Assumptions: []string{"math/big", "the affine model in harness/oracle/weier (self-tested)"},
 		SelfTest:    weier.SelfTest,
@@ -36,7 +37,7 @@ func init() {
 			}
 			return map[string]interface{}{"curve": cname(p[0][0]), "scalar": fw.Hex(p[1]), "shift": fw.Hex(p[2])}
 		},
-		Required: []string{"commute ok", "shift both succeed", "shift both invalid", "shift: sum is identity", "shift: shift == scalar (P+P)", "shift: shift == 0", "shift: [shift]G has the same y as the public key (endomorphism)"},
+		Required: []string{"commute ok", "shift both succeed", "shift both invalid", "shift: sum is identity", "shift: shift == scalar (P+P)", "shift: shift == 0", "shift: scalar outside [1, n-1], key built directly from the exported fields", "shift: [shift]G has the same y as the public key (endomorphism)"},
 	})
 }
 
@@ -164,9 +165,21 @@ func judge(class string, key []byte, o *fw.Obs) {
 		return
 	}
 	if k.Sign() == 0 || k.Cmp(n) >= 0 || err != nil {
-		// not a private key: nothing to shift (key validity itself is C02's subject)
-		o.Count("scalar is not a private key (skipped)")
-		return
+		// NewPrivateKey refuses the scalar (key validity itself is C02's subject). The property quantifies over
+		// all scalars in [0, 2^256), and PrivateKey has exported fields: the key is built directly from them.
+		var base slip10.Key
+		one := make([]byte, 32)
+		one[31] = 1
+		if !o.Try("NewPrivateKey(1)", func() { base, err = c.NewPrivateKey(one) }) {
+			return
+		}
+		bp, isEC := base.(*elliptic.PrivateKey)
+		if err != nil || !isEC {
+			o.Count("scalar is not a private key and the key type has no exported fields (skipped)")
+			return
+		}
+		priv = &elliptic.PrivateKey{K: new(big.Int).Set(k), Curve: bp.Curve}
+		o.Count("shift: scalar outside [1, n-1], key built directly from the exported fields")
 	}
 	sum := new(big.Int).Add(k, s)
 	sum.Mod(sum, n)
@@ -200,8 +213,10 @@ func judge(class string, key []byte, o *fw.Obs) {
 	}) {
 		return
 	}
-	if want := mc.Compress(mc.BaseMul(k)); !bytes.Equal(pb0, want) {
-		o.Count("Public() differs from the model's point(k) (C02/C17 judge that)")
+	if km := new(big.Int).Mod(k, n); km.Sign() != 0 {
+		if want := mc.Compress(mc.BaseMul(km)); !bytes.Equal(pb0, want) {
+			o.Count("Public() differs from the model's point(k) (C02/C17 judge that)")
+		}
 	}
 	inv1, inv2 := errors.Is(e1, slip10.ErrInvalidKey), errors.Is(e2, slip10.ErrInvalidKey)
 	if (e1 != nil && !inv1) || (e2 != nil && !inv2) {
@@ -350,10 +365,19 @@ func gen(g *fw.Gen) {
 			k = new(big.Int).SetBytes(g.Bytes(32))
 			k.Mod(k, new(big.Int).Sub(N, one)).Add(k, one)
 		}
-		if g.Rng.Intn(64) == 0 {
-			k = big.NewInt(0) // invalid private key
-		} else if g.Rng.Intn(64) == 0 {
+		switch g.Rng.Intn(48) { // scalars outside [1, n-1]: refused by NewPrivateKey, built directly by the monitor
+		case 0:
+			k = big.NewInt(0)
+		case 1:
 			k = new(big.Int).Add(N, big.NewInt(int64(g.Rng.Intn(3))))
+		case 2:
+			k = new(big.Int).Set(max)
+		case 3, 4: // random in (n, 2^256)
+			k = new(big.Int).SetBytes(g.Bytes(32))
+			k.Mod(k, new(big.Int).Sub(max, N)).Add(k, N).Add(k, one)
+			if k.BitLen() > 256 {
+				k = new(big.Int).Set(max)
+			}
 		}
 		nk := new(big.Int).Sub(N, k)
 		nk.Mod(nk, N)
